@@ -64,7 +64,8 @@ def gen_accesses(c, r, aw_wb, ratio_n):
     cls = c["cls"]
     wbb = c["wbw"] // 8
     full = (1 << wbb) - 1
-    hot = [r.randrange(1 << (aw_wb - 6)) << 3 for _ in range(4)]
+    # hot words anywhere in the usable address space (the top address bits included), with room for a burst behind them
+    hot = [min(r.randrange(1 << (aw_wb - 3)) << 3, (1 << aw_wb) - 256) for _ in range(4)]
     groups = []
     n = 0
     while n < c["nacc"]:
